@@ -95,12 +95,15 @@ def main(chk):
     rnd = random.Random(chk.seed)
     quick = chk.tier == 'quick'
     # B3: the transcription of the code refines the abstract store for every script of the family
-    r = tlc.run('VTLSchedule', 'VTLSchedule_quick.cfg' if quick else 'VTLSchedule_thorough.cfg', workers=14, timeout=14000)
+    r = tlc.run('VTLSchedule', 'VTLSchedule_quick.cfg' if quick else 'VTLSchedule_thorough.cfg', workers=14, timeout=14000, coverage=True)
     if r.violated:
         chk.violation('model %s' % r.violated, 'TLC: %s violated by the transcription of _ds_usage_analysis/execute_queries' % r.violated,
                       r.output[-4000:])
     else:
         tlc.must(r, 'VTLSchedule')
+        # FinalFetch ("final results not yet processed") is dead in the model: every selected result is in the deletion list of
+        # its last reader (or of its own statement), so it is fetched during a cleanup - DESIGN.md, C13
+        tlc.vacuity(chk, r, 'VTLSchedule', dead_ok=('FinalFetch',))
     chk.add('states', r.states)
     chk.add('transitions', r.generated)
     chk.cov['exhaustive'] = True
